@@ -12,7 +12,7 @@ HARNESS = ["auth/api/iam/zz_verif_c02_test.go", "storage/zz_verif_c02_export.go"
 
 REQUIRED = [
     "s2s_token_only_if", "s2s_defect_combination_rejected", "claims_cannot_override", "claims_cannot_override_today",
-    "authorize_response_only_if", "code_token_only_if", "code_redeemed_at_most_once", "nonce_covers_window",
+    "authorize_request_only_if", "authorize_response_only_if", "code_token_only_if", "code_redeemed_at_most_once", "nonce_covers_window",
     "nonce_covers_window_today", "introspect_active_only_if_issued", "introspect_faithful",
     "introspect_depends_on_token_store_only", "s2s_all_required_definitions_fulfilled_false", "plain_introspection_members",
     "fact_s2s_chain", "fact_code_token_chain", "fact_authorize_response_chain", "fact_introspect_chain",
@@ -299,6 +299,24 @@ class Oracle:
             self.judge_s2s(i, op, line)
         elif kind == "introspect":
             self.judge_introspect(i, op, line)
+        elif kind == "authreq":
+            if line.startswith("302 "):
+                f = dict(x.split("=", 1) for x in line.split()[1:])
+                why = []
+                if op.get("aud") != self.cfg["publicURL"] + "/oauth2/" + op.get("subject", ""):
+                    why.append("request-addressed-to-another-server")
+                if not op.get("challenge") or op.get("method") != "S256":
+                    why.append("no-S256-pkce-challenge")
+                if self.policy(op.get("scope")) is None:
+                    why.append("scope-not-configured")
+                if not op.get("redirect_uri"):
+                    why.append("missing-redirect_uri")
+                for wname in why:
+                    self.bad("authorization-request-accepted-despite:" + wname, f"op {i}: {line[:60]} ({op.get('defects')})", [i])
+                spec = {"client_id": op.get("client_id"), "scope": op.get("scope"), "own_subject": op.get("subject"),
+                        "challenge": op.get("challenge"), "method": op.get("method"), "client_state": op.get("client_state"),
+                        "required": self.policy(op.get("scope")) or []}
+                self.sessions[f["state"]] = {"spec": spec, "t": op["t"], "fulfilled": [], "nonces": {f["nonce"]: op["t"]}, "i": i}
         elif kind == "seed":
             self.sessions[op["state"]] = {"spec": op["session"], "t": op["t"], "fulfilled": [], "nonces": {op["nonce"]: op["t"]}, "i": i}
         elif kind == "authresp":
@@ -396,7 +414,7 @@ def run(ctx):
         a, b = world_of(idx[0])
         # replay = the world's configuration + every state-changing op up to the last op involved (time advances included)
         keep = [a] + [k for k in range(a + 1, idx[-1] + 1)
-                      if k in idx or ops[k].get("op") in ("advance", "seed", "authresp") or (ops[k].get("op") in ("s2s", "code") and impl[k].startswith("200"))]
+                      if k in idx or ops[k].get("op") in ("advance", "seed", "authresp", "authreq") or (ops[k].get("op") in ("s2s", "code") and impl[k].startswith("200"))]
         replay = "\n".join(clean(ops[k]) for k in keep) + "\n"
         if ctx.violation(sig, text, re.sub(r"[^A-Za-z0-9_.-]+", "_", sig.split(":", 1)[1])[:80] + ".jsonl", replay):
             new_sigs.append(sig)
@@ -440,7 +458,7 @@ def run(ctx):
     defect_kinds = Counter()
     distinct = set()
     for o, l in zip(ops, impl):
-        if o.get("op") in ("s2s", "code", "authresp"):
+        if o.get("op") in ("s2s", "code", "authresp", "authreq"):
             cls = "200" if l.startswith("200") else l.split(" ")[0]
             outcomes[o["op"] + ":" + cls] += 1
             ds = o.get("defects") or []
